@@ -234,7 +234,8 @@ func (s *memoryStore) RemoveNode(nodeID store.NodeID) error {
 // empty list, if none are available.
 func (s *memoryStore) ActiveHosts(kind string, limit int) ([]store.Node, error) {
 	seenSince := time.Now().Add(-store.ExpireInterval)
-	r := make([]store.Node, 0, limit)
+	// Not preallocating limit: it comes from the request and can be huge.
+	r := []store.Node{}
 
 	s.mu.Lock()
 	defer s.mu.Unlock()
